@@ -11,9 +11,11 @@ def run(pid, tier, seed, ctx):
     b = subprocess.run(["cargo", "build", "--offline", "--features", "async", "--bin", "wakeprobe"], cwd=os.path.join(ctx["verif"], "harness"), env=env, stdout=subprocess.PIPE, stderr=subprocess.STDOUT, text=True)
     if b.returncode != 0:
         return dict(summary={"cases": 0}, violations=[], divergences=[{"kind": "build", "features": feats, "detail": "wakeprobe does not build:\n" + b.stdout[-1500:], "case": None}], samples=[])
-    p = subprocess.run([os.path.join(tdir, "debug", "wakeprobe")], stdout=subprocess.PIPE, stderr=subprocess.PIPE, text=True)
+    # with the driver the same scenarios are put to the Lean model (`pollwith <op> :: <other stage's op>`, definition `pollWith`)
+    p = subprocess.run([os.path.join(tdir, "debug", "wakeprobe")] + (["--driver", ctx["driver"]] if ctx.get("driver") else []), stdout=subprocess.PIPE, stderr=subprocess.PIPE, text=True)
     if p.returncode != 0:
         return dict(summary={"cases": 0}, violations=[{"kind": "oracle", "tags": [pid], "features": feats, "case": "# wakeprobe", "failures": [{"detail": f"wakeprobe died (rc={p.returncode}): " + p.stderr[-500:]}]}], divergences=[], samples=[])
     rows = json.loads(p.stdout)
-    viol = [{"kind": "oracle", "tags": ["C14", "C15"], "features": feats, "case": "# wakeprobe check `%s`\n# %s" % (r["check"], r["detail"]), "failures": [{"detail": r["detail"]}]} for r in rows if not r["ok"]]
-    return dict(summary={"cases": len(rows), "steps": len(rows), "distinct_nontrivial": len(rows)}, violations=viol[:3], divergences=[], samples=[rows[0]["detail"]])
+    viol = [{"kind": "oracle", "tags": ["C14", "C15"], "features": feats, "case": "# wakeprobe check `%s`\n# %s" % (r["check"], r["detail"]), "failures": [{"detail": r["detail"]}]} for r in rows if not r["ok"] and r["check"] != "model"]
+    div = [{"kind": "model", "tags": [], "features": feats, "case": "# wakeprobe vs Lean pollWith", "failures": [{"detail": r["detail"]}]} for r in rows if not r["ok"] and r["check"] == "model"]
+    return dict(summary={"cases": len(rows), "steps": len(rows), "distinct_nontrivial": len(rows)}, violations=viol[:3], divergences=div[:3], samples=[rows[0]["detail"]])
